@@ -20,6 +20,20 @@ type live struct {
 	st  *rt.Store
 	gen seq.Generator[int]
 	obs []string
+	// iterators started from ONE shared Seq value: the scripted callbacks close over `act`; the
+	// iterator's own store is copied in before and out after each of its steps
+	act *rt.Store
+}
+
+// startShared: k iterators from the same Seq VALUE (seq.Start called k times on one value)
+func startShared(t *rt.CTerm, k int) []*live {
+	act := &rt.Store{}
+	val := rt.Build(t, act)
+	ls := make([]*live, k)
+	for i := range ls {
+		ls[i] = &live{st: &rt.Store{}, act: act, gen: seq.Start[int](val).(seq.Generator[int])}
+	}
+	return ls
 }
 
 func startLive(t *rt.CTerm) *live {
@@ -28,7 +42,20 @@ func startLive(t *rt.CTerm) *live {
 }
 
 func (l *live) step() {
-	before := len(l.st.Log)
+	if l.act != nil {
+		*l.act = *l.st
+		defer func() { *l.st = *l.act }()
+	}
+	st := l.st
+	if l.act != nil {
+		st = l.act
+	}
+	before := len(st.Log)
+	defer func(l *live) {
+		if l.act != nil {
+			// the observation string is built below from l.act; nothing more to do
+		}
+	}(l)
 	r := func() (s string) {
 		defer func() {
 			if p := recover(); p != nil {
@@ -38,7 +65,7 @@ func (l *live) step() {
 		ok := l.gen.MoveNext()
 		return fmt.Sprintf("%v:%d", ok, l.gen.Current())
 	}()
-	l.obs = append(l.obs, fmt.Sprintf("%s[%s]", r, strings.Join(l.st.Log[before:], ",")))
+	l.obs = append(l.obs, fmt.Sprintf("%s[%s]", r, strings.Join(st.Log[before:], ",")))
 }
 
 // all interleavings of k sequences of m steps each
@@ -130,6 +157,23 @@ func k1i(args []string) {
 						names = append(names, t.String())
 					}
 					bad = append(bad, dis{names, sch, i, alone[i], got})
+				}
+			}
+		}
+		// the same with all k iterators started from ONE Seq value (a generator function may build the
+		// combinator once and hand it to Start for every call): each must still behave as when alone
+		{
+			t := ts[0]
+			for _, sch := range schedules(k, m) {
+				ls := startShared(t, k)
+				for _, i := range sch {
+					ls[i].step()
+				}
+				runs++
+				for i := range ls {
+					if got := strings.Join(ls[i].obs, " "); got != alone[0] {
+						bad = append(bad, dis{[]string{t.String(), "(same Seq value started " + fmt.Sprint(k) + " times)"}, sch, i, alone[0], got})
+					}
 				}
 			}
 		}
